@@ -32,9 +32,18 @@ def r1_no_drop(ck, F):
     R = "C12-R1"
     n = 0
     hist = {}
+    # a read retried on ErrorKind::Interrupted inside a verified pass-through adapter is not a swallowed error
+    from .c11 import retry_adapters
+
+    class _Quiet:
+        def ob(self, *a, **k):
+            return a[2] if len(a) > 2 else True
+    retry_bodies = {x.path for x in retry_adapters(_Quiet(), F, R).values()}
     for b in F.user_bodies():
         for rec in result_uses(F, b):
             n += 1
+            if rec["verdict"] == "err-arm-swallowed" and b.path in retry_bodies and rec["callee"] == "std::io::Read::read":
+                rec["verdict"] = "propagated"
             hist[rec["verdict"]] = hist.get(rec["verdict"], 0) + 1
             if rec["verdict"] == "propagated":
                 continue
